@@ -177,7 +177,10 @@ func (s *vfC15State) check(n int, fr vfDetFrame, pix []uint16, bg []uint16, thr 
 		}
 	}
 	e, clamped := s.expected(bg)
-	near := math.Abs(float64(thr)-math.Floor(e)) <= 1
+	// an integer threshold "equal to the mean" may be the mean truncated, rounded or rounded up, and the code's
+	// own summation may be off by a few ulps: floor(e-1e-6) <= thr < e+1-1e-6. (For an integer mean this admits
+	// only the mean itself, or one less if the float sum fell just short of it.)
+	near := float64(thr) >= math.Floor(e-1e-6) && float64(thr) < e+1-1e-6
 	if changed && s.seen > c.PreviewFrames {
 		if !near {
 			return fmt.Sprintf("frame %d: background changed after the warm-up (%d > %d background frames) but the threshold is %d; mean of the interior background limited to [%d,%d] is %.3f", n, s.seen, c.PreviewFrames, thr, c.TMin, c.TMax, e)
@@ -280,6 +283,6 @@ func vfRunC15(c vfC15Case) *kit.Result {
 
 func TestVF_C15(t *testing.T) {
 	kit.Drive(t, "C15", "TestVF_C15",
-		"generated: dynamic-threshold streams with slowly drifting scenes, cooling/warming pixels, FFC periods and resets, optionally with the motion sink's start/stop failing; temp-thresh-min / max unset or set in all four combinations with the scene mean below, inside and above the range; preview frames 0-6, edge 0-2. Oracle (after every clear frame, read in-package from the detector alone and inside a MotionProcessor): background <= frame on every interior pixel; every border pixel equals its nearest interior pixel; background interior == frame on the first clear frame after start-up, a reset or an FFC period; if the background changed and more than preview*fps background frames were seen the threshold equals floor(clamp(mean of interior background, [min,max])) +-1, otherwise it is unchanged or equals that value; every StartRecording receives the background and threshold in force. Non-trivial: >=3 recomputations with the clamp active at least once, or a re-seed after an FFC/reset.",
+		"generated: dynamic-threshold streams with slowly drifting scenes, cooling/warming pixels, FFC periods and resets, optionally with the motion sink's start/stop failing; temp-thresh-min / max unset or set in all four combinations with the scene mean below, inside and above the range; preview frames 0-6, edge 0-2. Oracle (after every clear frame, read in-package from the detector alone and inside a MotionProcessor): background <= frame on every interior pixel; every border pixel equals its nearest interior pixel; background interior == frame on the first clear frame after start-up, a reset or an FFC period; if the background changed and more than preview*fps background frames were seen the threshold t satisfies floor(m-1e-6) <= t < m+1-1e-6 for m = clamp(mean of interior background, [min,max]) (truncation, rounding or rounding up of the mean; nothing else), otherwise it is unchanged or equals that value; every StartRecording receives the background and threshold in force. Non-trivial: >=3 recomputations with the clamp active at least once, or a re-seed after an FFC/reset.",
 		vfGenC15, vfRunC15)
 }
